@@ -80,6 +80,12 @@ class Real:
             idx.append(next(j for j, (_, w, _) in enumerate(self.ws) if w is c))
         return idx, len(self.Worker._active_children)
 
+    def peek(self):
+        """registry size and how many registered workers are dead - without pruning"""
+        with self.Worker._children_lock:
+            reg = list(self.Worker._active_children)
+        return len(reg), sum(1 for c in reg if not c.is_alive())
+
     def alive(self):
         return [j for j, (_, w, _) in enumerate(self.ws) if w.is_alive()]
 
@@ -115,8 +121,10 @@ def gen_history(rng, n, procs):
                 i = rng.choice(cand)
                 ops.append(('r', i))
                 alive.add(i)
-        elif r < 0.97:
+        elif r < 0.86:
             ops.append(('a',))
+        elif r < 0.97:
+            ops.append(('d',))
         else:
             ops.append(('x',))
             alive.clear()
@@ -142,15 +150,23 @@ def run_real(ops):
     from pyworkers.worker import autoclose_active_children
     real = Real(None)
     obs, oracle_fail = [], None
+    fin_since = 0      # completions since the last active_children() call (C19_retention_history)
     try:
         for k, op in enumerate(ops):
             if op[0] == 'c':
                 real.create(op[1], op[2])
             elif op[0] == 'f':
                 real.finish(op[1], op[2])
+                fin_since += 1
             elif op[0] == 'r':
                 real.restart(op[1])
+            elif op[0] == 'd':
+                size, dead = real.peek()
+                obs.append('D%d,%d' % (size, dead))
+                if oracle_fail is None and dead > fin_since:
+                    oracle_fail = (k, f'the registry retains {dead} dead workers although only {fin_since} workers ended since the last active_children() call')
             elif op[0] == 'a':
+                fin_since = 0
                 idx, size = real.active()
                 alive = real.alive()
                 obs.append('%s;%d' % (','.join(map(str, sorted(idx))), size))
@@ -159,7 +175,9 @@ def run_real(ops):
             else:
                 with autoclose_active_children():
                     pass
-                idx, size = real.active()
+                # no pruning call here: the probes that follow must see the registry as autoclose left it
+                size, _dead = real.peek()
+                fin_since = size      # every worker autoclose yielded has ended since its (pruning) call
                 alive = real.alive()
                 # model prints yielded-by-autoclose; compare only what is observable: nothing alive afterwards
                 obs.append(('AUTO', sorted(alive), size))
